@@ -648,6 +648,40 @@ func Message(s *Src) (*bgp.BGPMessage, []bgp.Family) {
 	}
 }
 
+// FitTo2ByteAS rewrites an UPDATE the way it travels on a session without the 4-octet-AS
+// capability (what table.UpdatePathAttrs2ByteAs does for such a peer): AS_PATH segments and
+// AGGREGATOR with 2-octet AS numbers, AS_TRANS for the numbers that do not fit.
+func FitTo2ByteAS(m *bgp.BGPMessage) {
+	u, ok := m.Body.(*bgp.BGPUpdate)
+	if !ok {
+		return
+	}
+	trans := func(as uint32) uint16 {
+		if as > 65535 {
+			return bgp.AS_TRANS
+		}
+		return uint16(as)
+	}
+	for i, a := range u.PathAttributes {
+		switch v := a.(type) {
+		case *bgp.PathAttributeAsPath:
+			var ps []bgp.AsPathParamInterface
+			for _, p := range v.Value {
+				l := p.GetAS()
+				as := make([]uint16, len(l))
+				for j := range l {
+					as[j] = trans(l[j])
+				}
+				ps = append(ps, bgp.NewAsPathParam(p.GetType(), as))
+			}
+			u.PathAttributes[i] = bgp.NewPathAttributeAsPath(ps)
+		case *bgp.PathAttributeAggregator:
+			n, _ := bgp.NewPathAttributeAggregator(trans(v.Value.AS), v.Value.Address)
+			u.PathAttributes[i] = n
+		}
+	}
+}
+
 // NormalisePathIDs zeroes the path identifiers of NLRI whose family has no
 // ADD-PATH in the options: without ADD-PATH the identifier is not on the wire.
 func NormalisePathIDs(m *bgp.BGPMessage, o *bgp.MarshallingOption) {
